@@ -643,6 +643,10 @@ def ward_quick(G, feature, verbose=False):
         raise ValueError(
             "Incompatible dimension for the feature matrix and the graph")
 
+    # the within-cluster sums of squares are translation invariant; centring
+    # avoids the cancellation of q - s ** 2 / n for features with a large offset
+    feature = feature - feature.mean(0)
+
     Features = [np.ones(2 * G.V), np.zeros((2 * G.V, feature.shape[1])),
                 np.zeros((2 * G.V, feature.shape[1]))]
     Features[1][:G.V] = feature
@@ -916,6 +920,10 @@ def ward(G, feature, verbose=False):
     if feature.shape[0] != G.V:
         raise ValueError(
             "Incompatible dimension for the feature matrix and the graph")
+
+    # the within-cluster sums of squares are translation invariant; centring
+    # avoids the cancellation of q - s ** 2 / n for features with a large offset
+    feature = feature - feature.mean(0)
 
     Features = [np.ones(2 * G.V), np.zeros((2 * G.V, feature.shape[1])),
                 np.zeros((2 * G.V, feature.shape[1]))]
